@@ -56,6 +56,12 @@ func (f *fstore) StoreLogs(ls []*raft.Log) error {
 	if f.failKind == "store" && f.nStore == f.failAt {
 		return errInj
 	}
+	if f.failKind == "storepartial" && f.nStore == f.failAt {
+		// the backend persists the first entry of the batch and then fails
+		c := *ls[0]
+		f.logs[c.Index] = &c
+		return errInj
+	}
 	for _, l := range ls {
 		c := *l
 		f.logs[l.Index] = &c
@@ -66,6 +72,18 @@ func (f *fstore) DeleteRange(min, max uint64) error {
 	f.nDel++
 	if f.failKind == "del" && f.nDel == f.failAt {
 		return errInj
+	}
+	if f.failKind == "delpartial" && f.nDel == f.failAt {
+		// the backend removes the lower half of the range and then fails
+		for k := range f.logs {
+			if k >= min && k <= (min+max)/2 {
+				delete(f.logs, k)
+			}
+		}
+		return errInj
+	}
+	if f.failKind == "storepartial" {
+		// handled in StoreLogs
 	}
 	for k := range f.logs {
 		if k >= min && k <= max {
@@ -190,7 +208,10 @@ func makers() []storeMaker {
 	}
 	// Read failures are not injected: a cache hit legitimately answers without
 	// asking the backend, so "the n-th backend read fails" is not comparable.
-	for _, k := range []string{"store", "del"} {
+	// "delpartial": DeleteRange removes part of the range and then fails. A StoreLogs
+	// that persists part of a batch and then fails is NOT injected: one store call
+	// is assumed atomic (the same assumption as for the SIM disks).
+	for _, k := range []string{"store", "del", "delpartial"} {
 		for at := 1; at <= 2; at++ {
 			k, at := k, at
 			ms = append(ms, func() (string, raft.LogStore, raft.LogStore) {
